@@ -70,11 +70,13 @@ PROPS = {
     "C02": {
         "module": "Cuke.Props.C02",
         "namespace": "Cuke.C02",
-        "families": [("attempt.run", 400, 30000)],
-        "segments": {"attempt.run": [0]},
+        "families": [("attempt.run", 400, 30000), ("sched.run", 600, 40000), ("sched.lazy", 400, 30000)],
+        "segments": {"attempt.run": [0], "sched.run": [13]},
+        "segment_names": ['c02'],
         "skip_prefixes": ["mon.c09", "mon.c10"],
         "modelled_not_verified": [
             "catch_unwind / unwinding: a panic is an outcome value of the model",
+            "attempts of concurrent runs (sched.*) are checked against the grammar recogniser shapeOk (theorem runAttempt_shape), not against a per-attempt script",
             "Metadata timestamps are dropped",
             "step matching is abstracted to pass / no-match / ambiguous (C17 covers Collection::find)",
         ],
